@@ -313,6 +313,7 @@ func init() {
 		r.Phase("long inputs", func() { longInputs(r, G, gs, []int{3, 2}) })
 		r.Phase("nil and fresh receivers", func() { nilAndFresh(r) })
 		r.Phase("field reset", func() { fieldReset(r, thorough) })
+		r.Phase("objects filled through accessors or fields", func() { filledOtherwise(r, thorough) })
 		finishGraphStats(r, gs)
 		r.Set("rule", graphRule+"; on every executed string: no panic, exactly one of object and error; at every new state the same string through a nil receiver; after every failed decode all observers on the receiver left behind (every abort point of every abort kind reached by the graphs) — no panic, and error/error/0 while a metric still holds its unknown value; fixed 1 MiB inputs; all observers on nil receivers and fresh constructor results; every exported field of decoded objects reset to its unknown/invalid value in turn")
 		setExhaustiveUnlessCapped(r)
@@ -484,6 +485,86 @@ func nilAndFresh(r *ev.Run) {
 		}
 	}
 	r.Add("nil_and_fresh_observations", n)
+}
+
+// filledOtherwise: a freshly constructed higher-level object whose embedded lower-level object is
+// decoded through the accessor (NewEnvironmental().BaseMetrics().Decode(v), ...TemporalMetrics()
+// .Decode(v)), and (v3) a freshly constructed object whose exported fields are assigned: the
+// object came from a constructor, so no query may panic, and since it holds exactly the metrics
+// of v its observables must equal those of its own decoder applied to v — for every base vector
+// of both versions (round 4, C12-B-r4: a function-valued field that only Environmental.Decode fills).
+func filledOtherwise(r *ev.Run, thorough bool) {
+	var n int64
+	for _, ver := range []int{3, 2} {
+		ver := ver
+		bases := allTok(ver, 0)
+		labels := []string{""}
+		if ver == 3 {
+			labels = []string{"3.0", "3.1"}
+		}
+		temporal := map[string]string{"E": "F", "RL": "W", "RC": "R"}
+		if ver == 2 {
+			temporal = map[string]string{"E": "F", "RL": "W", "RC": "UR"}
+		}
+		safeParallel(r, len(bases), func(bi int) {
+			var ln int64
+			for _, label := range labels {
+				for level := 1; level < 3; level++ {
+					for via := 0; via < level; via++ { // the accessor level that decodes
+						tok := bases[bi]
+						if via == 1 {
+							tok = merge(tok, temporal)
+						}
+						s := canonicalWritten(ver, via, label, tok)
+						o := lib.New(ver, level)
+						_, err, pan := lib.Decode(lib.Sub(o, via), s)
+						cs := map[string]any{"cvss": ver, "history": []string{"New" + spec.LevelNames[level] + "()", spec.LevelNames[via] + " accessor .Decode(" + s + ")", "every query on the outer object"}}
+						ln++
+						if pan != "" || err != nil {
+							r.Violate(ev.Violation{Kind: "accessor-decode-fails", Case: cs, Observed: fmt.Sprintf("err=%v panic=%q", err, pan), Expected: "accepted"})
+							continue
+						}
+						compareWithOwnDecode(r, cs, ver, level, s, o, true)
+					}
+					if ver == 3 && (thorough || bi%9 == 0 || level == 2) {
+						tok := bases[bi]
+						if level == 2 && bi%2 == 0 {
+							tok = merge(tok, map[string]string{"MS": "C", "MAV": "L", "CR": "H"})
+						}
+						s := canonicalWritten(3, level, label, tok)
+						o := fieldBuilt(3, level, label, tok)
+						cs := map[string]any{"cvss": 3, "history": []string{"New" + spec.LevelNames[level] + "()", "exported fields assigned as in " + s, "every query"}}
+						ln++
+						// the encoding of a field-built object lists only what a Decode recorded: not compared
+						compareWithOwnDecode(r, cs, 3, level, s, o, false)
+					}
+				}
+			}
+			atomic.AddInt64(&n, ln)
+		})
+	}
+	r.Add("objects_filled_through_accessors_or_fields", n)
+}
+
+func compareWithOwnDecode(r *ev.Run, cs map[string]any, ver, level int, s string, o any, encoding bool) {
+	want, err, _ := lib.DecodeNew(ver, level, s)
+	if err != nil || want == nil {
+		return // acceptance is C07/C08's business
+	}
+	for lv := level; lv >= 0; lv-- {
+		a, b := lib.Observe(lib.Sub(o, lv)), lib.Observe(lib.Sub(want, lv))
+		if a.Panic != "" {
+			r.Violate(ev.Violation{Kind: "observer-panics", Case: with(cp(cs), "view", spec.LevelNames[lv]), Observed: a.Panic, Expected: "no panic"})
+			return
+		}
+		if !encoding {
+			a.Enc, a.Str, b.Enc, b.Str = "", "", "", ""
+		}
+		if a != b {
+			r.Violate(ev.Violation{Kind: "object-differs-from-decode", Case: with(cp(cs), "view", spec.LevelNames[lv]), Observed: a.String(), Expected: b.String() + "  (the " + spec.LevelNames[level] + " decoder applied to " + s + ")"})
+			return
+		}
+	}
 }
 
 // fieldReset: decoded objects with one exported field (or the version) reset to its
